@@ -37,6 +37,10 @@ fn main() {
     println!("cargo:rerun-if-env-changed=WOWM_REPO");
     let mut g = String::new();
     for exp in ["vanilla", "tbc", "wrath"] {
+        // only expansions enabled as cargo features of this driver get a table (C19 builds subsets)
+        if std::env::var_os(format!("CARGO_FEATURE_{}", exp.to_uppercase())).is_none() {
+            continue;
+        }
         let p = repo.join(format!("wow_world_messages/src/world/{}/opcodes.rs", exp));
         println!("cargo:rerun-if-changed={}", p.display());
         let src = std::fs::read_to_string(&p).unwrap_or_default();
